@@ -93,8 +93,14 @@ def python_bytes_to_unicode(
             return 'utf-8'
 
         first_two_lines = re.match(br'(?:[^\r\n]*(?:\r\n|\r|\n)){0,2}', source).group(0)
-        possible_encoding = re.search(br"coding[=:]\s*([-\w.]+)",
-                                      first_two_lines)
+        # Like in CPython (PEP 263) the declaration has to be a comment in the
+        # first line or in the second line if the first one is only
+        # whitespace or a comment.
+        possible_encoding = re.match(
+            br"(?:[ \t\f]*(?:#[^\r\n]*)?(?:\r\n|\r|\n))??"
+            br"[ \t\f]*#[^\r\n]*?coding[:=][ \t]*([-\w.]+)",
+            first_two_lines
+        )
         if possible_encoding:
             e = possible_encoding.group(1)
             if not isinstance(e, str):
